@@ -629,7 +629,20 @@ def st_FunctionDef(self, s, st):
 
 def st_Try(self, s, st):
     if s.finalbody:
-        raise Untranslatable("try/finally")
+        # try ... finally: the finally block runs after every outcome; if it completes normally the pending outcome
+        # (return / raise / break / continue) resumes, otherwise its own outcome REPLACES the pending one
+        inner = ast.Try(body=s.body, handlers=s.handlers, orelse=s.orelse, finalbody=[])
+        ast.copy_location(inner, s)
+        outs = list(self.st_Try(inner, st)) if (s.handlers or s.orelse) else self.ex_block(s.body, st)
+        for o in outs:
+            for f in self.ex_block(s.finalbody, o.state):
+                if f.kind == "normal":
+                    o2 = Outcome(o.kind, f.state, o.value, o.exc)
+                    o2.site = o.site
+                    yield o2
+                else:
+                    yield f
+        return
     outs = self.ex_block(s.body, st)
     for o in outs:
         if o.kind == "normal":
